@@ -1,6 +1,8 @@
 package mem2reg
 
 import (
+	"sort"
+
 	"github.com/gogpu/naga/ir"
 )
 
@@ -54,6 +56,18 @@ type phiWalker struct {
 	// candidates is the set of variables Phase B will promote in this
 	// walk. Computed once at the start by selectStructuredCandidates.
 	candidates map[uint32]struct{}
+}
+
+// sortedCandidates returns the candidate variables in ascending index order so
+// that phi expressions are appended in a deterministic order (map iteration
+// order would otherwise leak into the emitted value numbering).
+func (w *phiWalker) sortedCandidates() []uint32 {
+	out := make([]uint32, 0, len(w.candidates))
+	for v := range w.candidates {
+		out = append(out, v)
+	}
+	sort.Slice(out, func(i, j int) bool { return out[i] < out[j] })
+	return out
 }
 
 func newPhiWalker(ctx *promotionContext) *phiWalker {
@@ -231,7 +245,7 @@ func (w *phiWalker) handleIf(stmtPtr *ir.Statement) []ir.Statement {
 	}
 
 	var phis []ir.Statement
-	for v := range w.candidates {
+	for _, v := range w.sortedCandidates() {
 		va, haveA := acceptValues[v]
 		vr, haveR := rejectValues[v]
 		if !haveA && !haveR {
@@ -282,7 +296,7 @@ func (w *phiWalker) handleSwitch(stmtPtr *ir.Statement) []ir.Statement {
 	stmtPtr.Kind = ir.StmtSwitch{Selector: sk.Selector, Cases: cases}
 
 	var phis []ir.Statement
-	for v := range w.candidates {
+	for _, v := range w.sortedCandidates() {
 		// Decide whether ANY case wrote to v.
 		writes := false
 		for ci := range caseValues {
